@@ -4,6 +4,7 @@ import SphericalVerif.Gen.FillKern
 import SphericalVerif.Gen.HornerKern
 import SphericalVerif.Gen.CPowKern
 import SphericalVerif.Gen.RotHKern
+import SphericalVerif.Gen.EulerKern
 import SphericalVerif.Model.Assemble
 import SphericalVerif.Model.W3j
 import SphericalVerif.Spec.Orderings
@@ -132,6 +133,12 @@ def step (line : String) : String :=
     let (ta, za) := quadrant 4 (Cx.oneC : Cx Float) z0
     let (tg, zg) := quadrant 4 (Cx.oneC : Cx Float) z2
     join #[cxs z0, cxs z1, cxs z2, cxs za, cxs zg, cxs ta, cxs tg]
+  | ["geneuler", r0, r1, r2, r3] =>
+    -- the GENERATED `quaternionic.converters.ToEulerPhases` kernel; z poisoned first
+    let Rv : Array Float := #[bf r0, bf r1, bf r2, bf r3]
+    let st0 : HFMem Float := { map := ∅, dflt := Float.ofBits 0x7FF8000000000BAD }
+    let st := Gen.u_to_euler_phases (α := Float) (fun i => Rv.getD i.toNat 0.0) 3 st0
+    join #[cxs (frdC (α := Float) st 3 0), cxs (frdC (α := Float) st 3 1), cxs (frdC (α := Float) st 3 2)]
   | ["quad", re, im] =>
     let (t, z) := quadrant 4 (Cx.oneC : Cx Float) ⟨bf re, bf im⟩
     cxs t ++ " " ++ cxs z
